@@ -140,6 +140,7 @@ func factsItems(atoms, quants []string) []string {
 type factsPat struct {
 	pat   string
 	extra bool // hand-picked: also sees the second alphabet
+	long  bool // large fixed counts: sees the long texts only
 }
 
 func factsPatterns(level int) []factsPat {
@@ -155,7 +156,7 @@ func factsPatterns(level int) []factsPat {
 	add := func(p string) {
 		if !seen[p] {
 			seen[p] = true
-			out = append(out, factsPat{p, false})
+			out = append(out, factsPat{p, false, false})
 		}
 	}
 	for _, x := range full {
@@ -223,6 +224,7 @@ func factsPatterns(level int) []factsPat {
 			add("(?<=" + x + ")" + y)
 			add(x + "(?!" + y + ")")
 			add("(?<!" + x + ")" + y)
+			add("(" + x + y + `)\1`)
 			add("(" + x + `)\1` + y)
 			add("(" + x + ")" + y + `\1`)
 		}
@@ -232,12 +234,15 @@ func factsPatterns(level int) []factsPat {
 		`\d+-`, `\s*[+-]?\d+`, "[^-]*[-1]*a", "bx|[^ac]x", "b-|[^a1]-", "a.*b", "a.*?b", ".*ab", `.*\d`, "[a1]b", "[ab1]-", "(?:a|b)+-", "(a*)*b", "(?>a+)b", "a{2}", "a{2}b",
 		"(?:ab){2}", "b*a{2}", "aab", "abab", "a-b", "ab-", "-ab", "[^ab]a", "[^ab]*a",
 		`\w+[ -]{1,2}\s+-\w+`, `\w+(?:-|\s*-)-\w+`, `\w+([ -]{1,2}\s+)-\w+`, `\w+(?:-a|-)a\.`, `\w+(?:\.-|\.)-\w+`, `\w*-\s*\.\w+`, `\w+\s+-\s+\.\w+`, `[a-]+\.{1,2}\.a`,
-		`\w+-(?:a|\.)\.-`, `\w+?-[.-]{1,3}\.`, "[ab]{25}-", "a{3}[ab]{22}-", "(?:ab|a-)+1", "(?:ab|ab-|a)1", "ab1|ab-|a-1", "aba|ab-|abb", "(?i:ab)-", "(?i:a)b", "a(?i:b)a",
+		`\w+-(?:a|\.)\.-`, `\w+?-[.-]{1,3}\.`, "(?:ab|a-)+1", "(?:ab|ab-|a)1", "ab1|ab-|a-1", "aba|ab-|abb", "(?i:ab)-", "(?i:a)b", "a(?i:b)a",
 		"(?<x>a)(?<-x>b)", "(?<x>a)+(?<-x>b)+(?(x)-|1)", "(a)?(?(1)b|-)", "(?:a|(b))-?\\1?", "a{1,3}?b", "(?:a+)+b", "(?:a*)+-", "(?:a?){3}a{2}", `(?m:^a)`, `(?m:a$)`, `(?s:a.b)`,
 		`\Aab`, `ab\z`, `ab\Z`, `a\Bb`, `\Ba`, `(?=a)\w+-`, `(?=\w+-)a`, `(?=.*-)a+`, `(?!-)\w*-`, `.+-`, `.*?-a`, `[^a]+a`, `[^-]*-`, `[a-]*-a`, `\w*a\w*-`, `\d*-\d+`,
 		`(a|ab)(c|bcd)?-`, `(?:(a)|b)+-`, `((a)|(b))*-`, `(a*)(b*)-\2\1`}
 	for _, p := range hand {
-		out = append(out, factsPat{p, true})
+		out = append(out, factsPat{p, true, false})
+	}
+	for _, p := range []string{"[ab]{25}-", "a{3}[ab]{22}-", "[ab]{21}-", "[ab]{20}-", "[ab]{19}-", "a{25}-", "[ab]{24}--?", "(?:ab){10}-", "[ab]{2}[ab]{23}-", "-b{30}-", "[ab]{20,}-", "[ab]{21,30}-"} {
+		out = append(out, factsPat{p, false, true})
 	}
 	return out
 }
@@ -279,8 +284,13 @@ func TestStandinFacts(t *testing.T) {
 	var texts [][]rune
 	factsWords([]rune{'a', 'b', '-', '1'}, maxText, func(w []rune) { texts = append(texts, append([]rune(nil), w...)) })
 	// longer texts for the shapes that need them
-	for _, s := range []string{"a.-b", "abab", "aba1-a2a3-", "ababa", "aab-ab", "  42", "abc;", "dx", "xxabc", "ab-ab-ab", "a1a1-", "11-1", "bab-a", "AB-", "aB-Ab", "a\nb", "a-\n", "\na-"} {
+	for _, s := range []string{"a.-b", "abab", "aba1-a2a3-", "ababa", "aab-ab", "  42", "abc;", "dx", "xxabc", "ab-ab-ab", "a1a1-", "11-1", "bab-a", "AB-", "aB-Ab", "a\nb", "a-\n", "\na-", "ab-b-", "aabab", "a1-1-"} {
 		texts = append(texts, []rune(s))
+	}
+	// texts for the shapes with a large fixed count
+	var texts3 [][]rune
+	for _, s := range []string{strings.Repeat("a", 25) + "-", "b" + strings.Repeat("ab", 12) + "-", "1" + strings.Repeat("a", 26) + "-b", strings.Repeat("ab", 10) + "-", strings.Repeat("a", 21) + "-", strings.Repeat("a", 24) + "-", "-" + strings.Repeat("b", 30) + "-"} {
+		texts3 = append(texts3, []rune(s))
 	}
 	// the hand-picked shapes also see every text over a second alphabet, one rune longer
 	texts2 := append([][]rune(nil), texts...)
@@ -312,6 +322,9 @@ func TestStandinFacts(t *testing.T) {
 			tt := texts
 			if w.extra {
 				tt = texts2
+			}
+			if w.long {
+				tt = texts3
 			}
 			for _, opt := range opts {
 				var re *Regexp
